@@ -26,7 +26,7 @@ from props import _h1
 
 ID = "C04"
 LEVEL = "exploration"
-QUICK_N = 60000
+QUICK_N = 80000
 THOROUGH_N = 1200000
 CHUNK = 300
 NO_SHRINK = ()
@@ -51,8 +51,8 @@ COMPONENTS = {
              "HTTP client (sim.net.RawPeer)", "reference reader (ref/http_request.py)"],
 }
 ASSUMPTIONS = [
-    "a delivery that spins for >10 s of real time inside one loop callback (no yield, so the "
-    "iteration cap cannot see it) is reported as run.cpu_hang via a SIGALRM safety net; the net "
+    "a delivery that burns >10 s of its own CPU time (ITIMER_VIRTUAL, immune to machine load) inside one loop callback (no yield, so the "
+    "iteration cap cannot see it) is reported as run.cpu_hang via a SIGVTALRM safety net; the net "
     "never fires in runs that yield",
     "exactly-at-limit is accepted (documented 'maximum amount')",
     "header block size = bytes from the end of the previous message through the blank line "
@@ -408,6 +408,28 @@ def run(scn, full_log=False):
                 limit_of_headers(ref.partial.header_map()) is not None:
             gz_override = True
     probe("ref_end:" + ref.end)
+    for spec in scn.get("reqs") or []:
+        if not isinstance(spec, dict):
+            continue
+        chs = spec.get("chunks") or []
+        if spec.get("framing") == "chunked" and len(chs) >= 5 and all(c == 1 for c in chs):
+            probe("one_byte_chunks")
+        if spec.get("gzip") and decompress and (spec.get("raw_len") or 0) >= 10000:
+            probe("gzip_bomb_sent")
+    if ref.end == "reject" and ref.reason == "decompressed_body_too_large" and ref.partial:
+        lim = ref.partial.body_limit
+        idx = len(ref.messages)
+        specs = [x for x in (scn.get("reqs") or []) if isinstance(x, dict)]
+        if idx < len(specs) and lim is not None:
+            over = (specs[idx].get("raw_len") or 0) - lim
+            probe("gzip_over_by_1" if over == 1 else ("gzip_bomb_refused" if over > 5000
+                                                      else "gzip_over_some"))
+    cs = {c for c in (seg.get("cuts") or []) if isinstance(c, int)}
+    for m in msgs:
+        if m.start + H in cs or m.start + H + 1 in cs:
+            probe("cut_at_header_limit")
+        if m.head_end in cs:
+            probe("cut_between_head_and_body")
 
     def bad(rule, msg, key=None):
         k = key or rule
